@@ -1316,6 +1316,8 @@ class Project:
                 # Check if state point and id correspond.
                 correct_id = calc_id(statepoint)
                 if correct_id != job_id:
+                    # Do not keep the state point cached under the wrong id.
+                    self._sp_cache.pop(job_id, None)
                     logger.warning(
                         "The job id of job '{}' is incorrect; "
                         "it should be '{}'.".format(job_id, correct_id)
